@@ -437,7 +437,6 @@ def _filter_function(filter):
     # next() on the shared counter allocates the name in one atomic step
     fun_name = "_gen_hsfilter_" + str(next(_id_function))
     function_template = "def %s(_grid, _entity, _c=_consts):\n  return " % fun_name + "".join(def_filter)
-    print("\nGenerate:\n# " + filter + "\n" + function_template)  # FIXME: debug
     return _FnWrapper(fun_name, function_template, consts)
 
 
